@@ -553,6 +553,15 @@ func (env *Env) elabCall(x *ECall) Val {
 			}
 		}
 		env.fail("addr(): no field %s", sel.Name)
+	case "deref":
+		v := arg(0)
+		if v.Ty.Go == nil {
+			env.fail("deref of non-Go value")
+		}
+		if _, ok := v.Ty.Go.Underlying().(*types.Pointer); !ok {
+			env.fail("deref of non-pointer %s", v.Ty.Go)
+		}
+		return e.load(env.St, e.addrOf(v))
 	case "string_of_bytes":
 		v := arg(0)
 		return Val{T: e.bytesToString(v.T), Ty: tyString}
@@ -825,9 +834,11 @@ func (env *Env) callGoMethod(recv Val, name string, args []Val) Val {
 		}
 		saveObl, saveCnt := e.Obls, e.oblCount
 		e.oblCount = map[string]int{}
+		e.inSpec++
 		st := env.St.clone()
 		st.Reach = "true"
 		rets, _ := e.runFunc(fn, append([]Val{recv}, args...), nil, st, "spec")
+		e.inSpec--
 		e.Obls, e.oblCount = saveObl, saveCnt
 		if len(rets) != 1 {
 			env.fail("method %s returns %d values", name, len(rets))
